@@ -102,6 +102,17 @@ func C09Worlds(c *Ctx, sz sizes) ([]*World, error) {
 		}
 		ws = append(ws, s.World("defects-"+st))
 	}
+	// a directory sits where one of several output files belongs (prior tree state): the run
+	// fails at that file; what it reports and which other files it wrote must not follow map order
+	for k := 0; k < 3; k++ {
+		s := &LSpec{UserPkgs: map[string]string{}, PkgNames: map[string]string{"svc/conv": "conv", "api/conv": "conv", "a": "a"}}
+		for ci, d := range []string{"svc/conv", "a", "api/conv"} {
+			s.Convs = append(s.Convs, LConv{Dir: d, File: "conv.go", Kind: "interface", Name: fmt.Sprintf("O%c", 'a'+ci), Version: 1})
+		}
+		w := s.World(fmt.Sprintf("obstructed-output#%d", k))
+		w.Files[s.Predict(&s.Convs[k]).Path+"/keep.txt"] = "a directory, not a file\n"
+		ws = append(ws, w)
+	}
 	for i := 0; i < sz.combos && len(corpus) > 2; i++ {
 		r := c.Rng("c09-combo", i)
 		k := 2 + r.IntN(2)
